@@ -28,6 +28,9 @@ LEVEL_TEXT = (
 )
 LEVEL_NOTE = "Trusted: CPython hmac/hashlib/base64/datetime, the 10-line reference in vpchk/refs/hotp.py, Hypothesis."
 TECHNIQUE = "Hypothesis differential testing against an independent RFC 4226/6238 reference"
+#: thorough tier: seed-dependent tasks are repeated under this many derived seeds (run.py); the listed task functions enumerate fixed domains
+THOROUGH_REPS = 2
+DETERMINISTIC_FNS = ('t_leading_zero',)
 
 
 def selftest():
